@@ -193,6 +193,7 @@ class World:
         m = M(id_, q, op["topic"], op.get("prio", 5), payload, params, self.seq, due, expiry, enq_t=self.now)
         done, _ = await self.call(b.enqueue(key, payload, params), op.get("cancel_after"))
         ev["done"] = done
+        ev["id"] = id_
         if done:
             self.msgs[id_] = m
         else:
